@@ -15,8 +15,6 @@ From TT Require Import Model.Doc Gen.StyleTables Model.Isd.
 (* LCDDocFilterConfig: safe_area, preserve_text_align, color, bg_color (colours packed RGBA8 as in VColor) *)
 Record lcd_cfg := mkCfg { c_sa : Z ; c_pta : bool ; c_color : option Z ; c_bg : option Z }.
 
-Definition errNoBody : Z := 3.     (* TypeError: _apply_bg_color(None, ..) iterates over None *)
-
 (* ---- attribute updates ------------------------------------------------------------------------------- *)
 Definition with_styles (a : attrs) (st : smap) : attrs :=
   mkAttrs (e_kind a) (e_id a) (e_begin a) (e_end a) (e_region a) st (e_anims a) (e_preserve a) (e_lang a) (e_text a).
@@ -100,11 +98,9 @@ Definition region_layout (c : lcd_cfg) (d : doc) (inits : smap) (st : smap) : re
   let st := sset st p_Extent (VExtent (pct (100 - 2 * c_sa c)) (pct (100 - 2 * c_sa c))) in
   Ok (st, enum_tag wm, nda))).
 
-(* fingerprint = (begin or 0, end or None, writing_mode, new_display_align) *)
+(* fingerprint = (begin or 0, end, writing_mode, new_display_align)   (after fix c0beb1f: region.get_end(), no `or None`) *)
 Definition fp := (Q * option Q * Z * Z)%type.
 Definition or0 (b : option Q) : Q := match b with Some x => x | None => 0%Q end.
-Definition or_none (e : option Q) : option Q :=
-  match e with Some x => if Qeq_bool x 0%Q then None else Some x | None => None end.
 Definition fp_eqb (a b : fp) : bool :=
   let '(b1, e1, w1, d1) := a in let '(b2, e2, w2, d2) := b in
   Qeq_bool b1 b2 && oQ_eqb e1 e2 && (w1 =? w2) && (d1 =? d2).
@@ -124,7 +120,7 @@ Fixpoint lcd_regions (c : lcd_cfg) (d : doc) (inits : smap) (rs : list elem) (re
       bind (region_layout c d inits (e_styles a)) (fun x =>
       let '(st, wm, nda) := x in
       let r2 := Elem (with_styles a st) (echildren r1) in
-      let f : fp := (or0 (e_begin a), or_none (e_end a), wm, nda) in
+      let f : fp := (or0 (e_begin a), e_end a, wm, nda) in
       match lookup_fp retained f with
       | None => bind (lcd_regions c d inits rs' ((f, rid a) :: retained)) (fun out => Ok ((r2, None) :: out))
       | Some t => bind (lcd_regions c d inits rs' retained) (fun out => Ok ((r2, Some t) :: out))
@@ -181,13 +177,10 @@ Definition lcd (c : lcd_cfg) (d : doc) : res doc :=
   let body := option_map (redirect_elem replaced) body in
   let body := option_map (clear_elem (map fst replaced)) body in
   let regions := retained_of out in
-  (* apply background color *)
-  bind (match c_bg c with
-        | None => Ok body
-        | Some col => match body with None => Err errNoBody | Some b => Ok (Some (apply_bg col b)) end
-        end) (fun body =>
+  (* apply background color   (after fix a7b547e: only when there is a body) *)
+  let body := match c_bg c with Some col => option_map (apply_bg col) body | None => body end in
   (* apply text color *)
   let body := match c_color c with Some col => option_map (set_root_style p_Color (VColor col)) body | None => body end in
   (* apply text align *)
   let body := if c_pta c then body else option_map (set_root_style p_TextAlign (VEnum e_TextAlignType_center)) body in
-  Ok (mkDoc regions body inits (d_rows d) (d_cols d) (d_pxh d) (d_pxw d) (d_active d) (d_dar d) (d_lang d)))).
+  Ok (mkDoc regions body inits (d_rows d) (d_cols d) (d_pxh d) (d_pxw d) (d_active d) (d_dar d) (d_lang d))).
